@@ -162,12 +162,20 @@ def _event_case(rng, name, o, d, z, extra_req, call_fn, descr, fmt=tinst):
 
 def gen_events(rng, n, tier="quick"):
     """dawn sunrise sunset dusk time_at_elevation noon midnight"""
+    prev = None
     for i in range(n):
         d0 = gens.rand_date(rng)
         z = zones.rand_zone(rng, d0)
         d = gens.rand_date(rng, z) if z.iana else d0
         o = gens.rand_observer(rng)
         k = i % 9
+        if prev is not None and rng.random() < 0.3:
+            # same place, same date, same function as an earlier call, asked again in another
+            # zone: results must be a function of the arguments alone (caches, shared state)
+            o, d, k = prev
+            z = zones.rand_zone(rng, d) if zones.in_span(d) else zones.fixed(60 * rng.randint(-12, 14))
+        else:
+            prev = (o, d, k) if rng.random() < 0.5 else prev
         if rng.random() < 0.12 and k < 6:
             base0 = {0: lambda: sun.dawn(o, d), 1: lambda: sun.dusk(o, d),
                      2: lambda: sun.sunrise(o, d), 3: lambda: sun.sunset(o, d),
